@@ -101,8 +101,21 @@ def gen_run(rng: random.Random, quick: bool, force=None):
     # result must not depend on the choice of the root (theorem ukf_linear_eq_kf); the model uses Cholesky
     c["msqrt"] = "sym" if (c["filter"] == "ukf" and not c["nonlinear"] and rng.random() < 0.25) else "default"
     c["xmag"] = rng.choice([0.0, 1e-3, 1.0, 1.0, 10.0, 1e3])
+    # how the caller hands tensors over (fresh / one buffer overwritten in place between calls / non-contiguous views into
+    # larger buffers, optionally the same tensor as two arguments) and one class of extreme-but-valid input
+    c["arg_mode"] = force.get("arg_mode", rng.choice(["fresh", "fresh", "inplace", "views"]))
+    c["alias"] = force.get("alias", c["arg_mode"] == "views" and rng.random() < 0.5)
+    c["extreme"] = force.get("extreme", rng.choice(["-"] * 5 + EXTREMES))
     c.update({kx: force[kx] for kx in ("cond", "scales", "xmag", "diag", "msqrt") if kx in force})
+    if c["extreme"] == "tiny-scale" and "scales" not in force:
+        c["scales"] = [1e-6, 1e-7, 1e5] if c["dtype"] == "float64" else [1e-3, 1e-4, 1e2]
+    if c["extreme"] == "x-huge":
+        c["xmag"] = 1e6 if c["dtype"] == "float64" else 1e4
     return c
+
+
+EXTREMES = ["y-far", "x-huge", "u-huge", "k-edge", "A-zero", "C-zero", "tiny-scale"]
+K_EDGE = [1e6, "-n+0.0001", 1e-9, -1e-9]
 
 
 K_SEQ = ["none", 1.5, 0, -1.0, 4, "none"]
@@ -128,6 +141,22 @@ def corpus_runs(quick: bool):
         dict(NICE, filter="ekf", n=2, m=1, p=2, dtype="float64", nonlinear=True, T=5, qr_mode="both", t_mode="mixed",
              vary_qr=True),
     ]
+    # corner corpus: stale reads (one buffer per argument overwritten in place, constructor Q/R and the system's own
+    # parameters updated in place between calls), views / aliases, extremes of every kind
+    for flt in ("ekf", "ukf"):
+        specs.append(dict(NICE, filter=flt, n=2, m=2, p=2, dtype="float64", nonlinear=False, T=5, qr_mode="both",
+                          t_mode="mixed", vary_qr=True, arg_mode="inplace", k_seq=[1, "none", 0.5, 2, "none"]))
+        specs.append(dict(NICE, filter=flt, n=3, m=3, p=3, dtype="float64", nonlinear=(flt == "ekf"), T=4, qr_mode="call",
+                          t_mode="none", vary_qr=True, arg_mode="views", alias=True, k_seq=[2, "none", 2, 0.5]))
+        specs.append(dict(NICE, filter=flt, n=2, m=1, p=1, dtype="float32", nonlinear=False, T=3, qr_mode="ctor",
+                          t_mode="tensor", vary_qr=False, arg_mode="inplace", k_seq=["none", 3, "none"]))
+        for ex in EXTREMES:
+            specs.append(dict(NICE, filter=flt, n=3, m=2, p=2, dtype="float64", nonlinear=False, T=2, qr_mode="call",
+                              t_mode="none", vary_qr=False, extreme=ex, arg_mode="fresh"))
+    for sp in specs:
+        sp.setdefault("arg_mode", "fresh")
+        sp.setdefault("extreme", "-")
+        sp.setdefault("alias", False)
     out = []
     for i, sp in enumerate(specs):
         c = gen_run(random.Random(130100 + i), quick, dict(sp, seed=130100 + i))
@@ -158,15 +187,25 @@ def materialise_run(c):
     d = {"prm": prm, "P0": mk(n, sP), "x0": uf.round_dt(uf.vec_mag(rng, n, [c["xmag"]]), dt),
          "Qc": mk(n, sQ), "Rc": mk(p, sR), "steps": []}
     d["Qdecoy"], d["Rdecoy"] = mk(n, sQ * 7), mk(p, sR * 0.3)
+    ext = c.get("extreme", "-")
+    if ext == "A-zero":
+        prm["A0"] = [[0.0] * n for _ in range(n)]
+    if ext == "C-zero":
+        prm["C0"] = [[0.0] * n for _ in range(p)]
     for j in range(c["T"]):
-        st = {"u": uf.round_dt(uf.vec_mag(rng, m, [0.0, 0.1, 1.0, 1.0, 30.0]), dt),
-              "ydev": [rng.gauss(0, 1) * rng.choice([0.0, 0.3, 1.0, 1.0, 3.0, 30.0]) for _ in range(p)]}
+        st = {"u": uf.round_dt(uf.vec_mag(rng, m, [1e5] if ext == "u-huge" else [0.0, 0.1, 1.0, 1.0, 30.0]), dt),
+              "ydev": [rng.gauss(0, 1) * rng.choice([1e4, 1e6] if ext == "y-far" else [0.0, 0.3, 1.0, 1.0, 3.0, 30.0])
+                       for _ in range(p)]}
+        st["drift"] = {"qr_scale": rng.choice([1.0, 2.0, 0.5]), "A_scale": rng.choice([1.0, 1.0, 0.5, -1.0]),
+                       "c1_delta": uf.round_dt(uf.vec_mag(rng, n, [0.0, 0.5, 2.0]), dt)}
         if c["vary_qr"]:
             st["Q"], st["R"] = mk(n, sQ * 10 ** rng.uniform(-1, 1)), mk(p, sR * 10 ** rng.uniform(-1, 1))
         if c["t_mode"] == "tensor" or (c["t_mode"] == "mixed" and rng.random() < 0.5):
             st["t"] = float(rng.choice([0.0, 0.5, 2.0, -1.0, float(j)]))
         if c.get("k_seq"):
             st["k"] = c["k_seq"][j % len(c["k_seq"])]
+        elif ext == "k-edge":
+            st["k"] = rng.choice(K_EDGE)
         elif c.get("vary_k"):
             st["k"] = rng.choice(K_CHOICES)
         else:
@@ -178,8 +217,23 @@ def materialise_run(c):
 
 
 def tol_pair(info, eps, extra=1.0):
+    """(tolx, tolP): entry-wise tensors when the reference supplies entry-wise pre-cancellation magnitudes (EKF / Kalman
+    reference), numbers otherwise (UKF bound)"""
     kap = max(info["kappa"], 1.0)
-    return (CTOL * eps * kap * extra * info["scalex"] + 1e-300, CTOL * eps * kap * extra * info["scaleP"] + 1e-300)
+    f = CTOL * eps * kap * extra
+    if "scalex_entries" in info:
+        sx = torch.tensor(info["scalex_entries"], dtype=torch.float64)
+        sP = torch.tensor(info["scaleP_entries"], dtype=torch.float64)
+        # an entry whose own magnitude bound is tiny still inherits a (much smaller) share of the largest one through
+        # the shared factors (gain, inverse): floor at 2^-20 of the maximum
+        sx = torch.maximum(sx, sx.max() * 2.0 ** -20) if sx.numel() else sx
+        sP = torch.maximum(sP, sP.max() * 2.0 ** -20) if sP.numel() else sP
+        return f * sx + 1e-300, f * sP + 1e-300
+    return f * info["scalex"] + 1e-300, f * info["scaleP"] + 1e-300
+
+
+def tmax(t) -> float:
+    return float(t.max()) if isinstance(t, torch.Tensor) else float(t)
 
 
 def sym_defect(P: torch.Tensor):
@@ -207,6 +261,60 @@ def sym_sqrt(Mx: torch.Tensor) -> torch.Tensor:
     return (Vv * lam.clamp_min(0).sqrt().unsqueeze(-2)) @ Vv.mT
 
 
+def bad_output(out, n, dt):
+    """None when `out` is a pair (x of shape (n,), P of shape (n,n)) of finite tensors of dtype dt, else what is wrong"""
+    if not (isinstance(out, (tuple, list)) and len(out) == 2):
+        return f"returned {type(out).__name__} instead of a pair (x, P)"
+    x2, P2 = out
+    if not (isinstance(x2, torch.Tensor) and isinstance(P2, torch.Tensor)):
+        return f"returned ({type(x2).__name__}, {type(P2).__name__})"
+    if tuple(x2.shape) != (n,) or tuple(P2.shape) != (n, n):
+        return f"returned shapes {tuple(x2.shape)}, {tuple(P2.shape)} for state dimension {n}"
+    if x2.dtype != dt or P2.dtype != dt:
+        return f"returned dtypes {x2.dtype}, {P2.dtype} for inputs of {dt}"
+    if not bool(torch.isfinite(x2).all() and torch.isfinite(P2).all()):
+        return "returned non-finite values"
+    return None
+
+
+class Feeder:
+    """How the caller hands tensors to the filter.
+      fresh   : a new tensor per call;
+      inplace : ONE tensor per argument for the whole run, overwritten in place (copy_) between calls — a result must
+                describe the current content (stale reads);
+      views   : every argument is a non-contiguous view into a larger buffer filled with sentinels; after the call the
+                whole buffer must be bit-identical (purity, nothing written outside or inside the view)."""
+
+    def __init__(self, mode, dt):
+        self.mode, self.dt, self.buf, self.snap = mode, dt, {}, {}
+
+    def give(self, name, vals):
+        t = torch.tensor(vals, dtype=self.dt)
+        if self.mode == "fresh":
+            return t
+        if self.mode == "inplace":
+            if name not in self.buf:
+                self.buf[name] = t.clone()
+            else:
+                self.buf[name].copy_(t)
+            return self.buf[name]
+        # views
+        if t.dim() == 1:
+            big = torch.arange(2 * t.shape[0] + 3, dtype=self.dt) * 0.37 - 1.3
+            view = big[1:1 + 2 * t.shape[0]:2]
+        else:
+            r, cc = t.shape
+            big = (torch.arange((r + 2) * (2 * cc + 3), dtype=self.dt) * 0.11 - 2.9).reshape(r + 2, 2 * cc + 3)
+            view = big[1:1 + r, 1:1 + 2 * cc:2]
+        view.copy_(t)
+        self.buf[name], self.snap[name] = big, big.clone()
+        return view
+
+    def touched(self):
+        """names of view buffers whose storage changed during the call"""
+        return [nm for nm, big in self.buf.items() if nm in self.snap and not torch.equal(big, self.snap[nm])]
+
+
 def run_one(ctx: Ctx, c, lines, metas, verbose=False):
     """execute one run on the real code; append driver lines + what to compare them with"""
     P_ = uf.pp()
@@ -214,63 +322,95 @@ def run_one(ctx: Ctx, c, lines, metas, verbose=False):
     n, m, p, dt = c["n"], c["m"], c["p"], dt_of(c["dtype"])
     eps = common.EPS[c["dtype"]]
     T = lambda v: torch.tensor(v, dtype=dt)
-    model = uf.fam_class()(d["prm"], dt)
+    mode = c.get("arg_mode", "fresh")
+    prm = {kx: v for kx, v in d["prm"].items()}          # current system parameters (drift in place in `inplace` mode)
+    model = uf.fam_class()(prm, dt)
     if d["t_reset"]:
         model.reset(d["t_reset"])
-    ctorQ, ctorR = (None, None)
+    ctorQl = ctorRl = None
     if c["qr_mode"] == "ctor":
-        ctorQ, ctorR = T(d["Qc"]), T(d["Rc"])
+        ctorQl, ctorRl = d["Qc"], d["Rc"]
     elif c["qr_mode"] == "both":
-        ctorQ, ctorR = T(d["Qdecoy"]), T(d["Rdecoy"])
+        ctorQl, ctorRl = d["Qdecoy"], d["Rdecoy"]
+    ctorQ = None if ctorQl is None else T(ctorQl)
+    ctorR = None if ctorRl is None else T(ctorRl)
     is_ukf = c["filter"] == "ukf"
     if is_ukf and c.get("msqrt") == "sym":
         filt = P_.module.UKF(model, Q=ctorQ, R=ctorR, msqrt=sym_sqrt)
         ctx.count("ukf.msqrt=sym")
     else:
         filt = (P_.module.UKF if is_ukf else P_.module.EKF)(model, Q=ctorQ, R=ctorR)
-    x, P = T(d["x0"]), T(d["P0"])
+    feed = Feeder(mode, dt)
+    ctx.count(f"run.args={mode}")
+    xl, Pl = d["x0"], d["P0"]
     mon = common.PurityMonitor()
     prev_tolP = 0.0
+    in_asym = in_lam = 0.0
     for j, st in enumerate(d["steps"]):
-        in_asym, in_lam = sym_defect(P)
         kspec = st["k"]
         kval = k_value(kspec, n)
+        # ---- the caller changes, IN PLACE, tensors the objects hold: constructor Q/R and the system's parameters
+        if mode == "inplace" and j > 0:
+            dr = st["drift"]
+            if ctorQ is not None and dr["qr_scale"] != 1.0:
+                ctorQ.mul_(dr["qr_scale"])
+                ctorR.mul_(dr["qr_scale"])
+                ctorQl = [[v * dr["qr_scale"] for v in row] for row in ctorQl]
+                ctorRl = [[v * dr["qr_scale"] for v in row] for row in ctorRl]
+                ctx.count("run.ctor-QR-updated-in-place")
+            if dr["A_scale"] != 1.0 or any(dr["c1_delta"]):
+                prm = dict(prm)
+                prm["A0"] = [[v * dr["A_scale"] for v in row] for row in prm["A0"]]
+                prm["c1"] = uf.round_dt([a + b2 for a, b2 in zip(prm["c1"], dr["c1_delta"])], dt)
+                model.p_A0.mul_(dr["A_scale"])
+                model.p_c1.copy_(T(prm["c1"]))
+                ctx.count("run.system-updated-in-place")
         if st["pass_qr"]:
             Ql, Rl = st.get("Q", d["Qc"]), st.get("R", d["Rc"])
-        elif c["qr_mode"] == "both":           # not given for this call: the constructor's values apply
-            Ql, Rl = d["Qdecoy"], d["Rdecoy"]
+        elif c["qr_mode"] == "both":           # not given for this call: the constructor's (current) values apply
+            Ql, Rl = ctorQl, ctorRl
         else:
-            Ql, Rl = d["Qc"], d["Rc"]
-        u = T(st["u"])
+            Ql, Rl = ctorQl, ctorRl
+        ul = st["u"]
+        alias_ux = bool(c.get("alias")) and m == n and j % 2 == 1            # the same tensor as state and as input
+        alias_qr = bool(c.get("alias")) and n == p and st["pass_qr"] and j % 2 == 0   # the same tensor as Q and as R
+        if alias_ux:
+            ul = xl
+        if alias_qr:
+            Rl = Ql
         tval = st.get("t")
         t_arg = None if tval is None else torch.tensor(tval, dtype=dt)
         t_eff = float(model.systime) if tval is None else tval
-        xl, Pl = x.double().tolist(), P.double().tolist()
-        fam = uf.MpFam(d["prm"], t_eff)
+        fam = uf.MpFam(prm, t_eff)
         # measurement: predicted observation (50 digits) + deviation scaled by the innovation spread
         try:
-            ref0 = uf.mp_kalman_predict(fam, st["u"], Ql, Rl, xl, Pl)
+            ref0 = uf.mp_kalman_predict(fam, ul, Ql, Rl, xl, Pl)
             sd = [math.sqrt(abs(float(ref0["S"][i, i]))) for i in range(p)]
-            y = T([float(ref0["gx"][i]) + st["ydev"][i] * sd[i] for i in range(p)])
+            yl = uf.round_dt([float(ref0["gx"][i]) + st["ydev"][i] * sd[i] for i in range(p)], dt)
         except (ZeroDivisionError, ValueError):
             break
-        if not bool(torch.isfinite(y).all()):
+        if not all(math.isfinite(v) for v in yl):
             break
-        yl = y.double().tolist()
+        x, P, y = feed.give("x", xl), feed.give("P", Pl), feed.give("y", yl)
+        u = x if alias_ux else feed.give("u", ul)
         stepcase = dict(c, step=j, k_call=kspec)
         kw = {}
         if st["pass_qr"]:
-            kw["Q"], kw["R"] = T(Ql), T(Rl)
+            kw["Q"] = feed.give("Q", Ql)
+            kw["R"] = kw["Q"] if alias_qr else feed.give("R", Rl)
         if t_arg is not None:
             kw["t"] = t_arg
         if is_ukf and kspec != "none":
             kw["k"] = kval
+        if alias_ux or alias_qr:
+            ctx.count("run.same-tensor-as-two-arguments")
+        clock0 = float(model.systime)
         # ---- the real code
         try:
-            x2, P2 = mon.call(f"{c['filter']}.forward", filt, x, y, u, P, **kw)
+            out = mon.call(f"{c['filter']}.forward", filt, x, y, u, P, **kw)
             err = None
         except Exception as e:  # noqa: BLE001
-            x2 = P2 = None
+            out = None
             err = f"{type(e).__name__}: {str(e)[:100]}"
         # ---- references
         lin = not c["nonlinear"]
@@ -278,13 +418,14 @@ def run_one(ctx: Ctx, c, lines, metas, verbose=False):
         uinfo = None
         if is_ukf:
             try:
-                uinfo = uf.np_ukf(uf.NpFam(d["prm"], t_eff), kval, st["u"], yl, Ql, Rl, xl, Pl)
+                uinfo = uf.np_ukf(uf.NpFam(prm, t_eff), kval, ul, yl, Ql, Rl, xl, Pl)
                 if not all(math.isfinite(v) for v in uinfo.values()):
                     uinfo = None
             except (np.linalg.LinAlgError, ZeroDivisionError, FloatingPointError):
                 uinfo = None
         centre_ok = (not is_ukf) or kval >= 0
-        sig = (c["filter"], n, m, p, c["dtype"], lin, str(kspec) if is_ukf else "-", min(j, 3), c["qr_mode"], st["pass_qr"], c["t_mode"], bool(c.get("vary_k") or c.get("k_seq")),
+        sig = (c["filter"], n, m, p, c["dtype"], lin, str(kspec) if is_ukf else "-", min(j, 3), c["qr_mode"], st["pass_qr"],
+               c["t_mode"], bool(c.get("vary_k") or c.get("k_seq")), mode, c.get("extreme", "-"),
                common.sig_mag(c["scales"][0]) // 2, common.sig_mag(c["scales"][2]) // 2, c["cond"])
         ctx.note_case(sig, True)
         ctx.count(f"run.{c['filter']}.{'lin' if lin else 'nonlin'}.{c['dtype']}")
@@ -307,43 +448,64 @@ def run_one(ctx: Ctx, c, lines, metas, verbose=False):
                 break
             # property: for k > -n and SPD inputs a linear UKF/EKF step must return the posterior
             if lin or not is_ukf or centre_ok:
-                ctx.fail(stepcase, f"raises: {c['filter']} raised at call {j} of the run: {err}")
+                ctx.fail(stepcase, f"raises: {c['filter']} raised at call {j} of the run (arguments: {mode}): {err}")
             else:
                 # non-linear UKF with negative centre weight: P^- may be indefinite; the model must fail too
-                lines.append(ukf_line(c, d, kval, t_eff, st["u"], yl, Ql, Rl, xl, Pl))
+                lines.append(ukf_line(c, prm, kval, t_eff, ul, yl, Ql, Rl, xl, Pl))
                 metas.append({"case": stepcase, "expect_err": err})
             break
+        bad = bad_output(out, n, dt)
+        if bad is not None:
+            ctx.fail(stepcase, f"output: {c['filter']} call {j} {bad}")
+            break
+        x2, P2 = out
+        # ---- object / argument hygiene: nothing the caller holds may change, public state of the objects stays as set
+        for nm in feed.touched():
+            ctx.fail(stepcase, f"mutation: {c['filter']} call {j} wrote into the caller's buffer behind argument `{nm}` (a view)")
+        if ctorQ is not None and not (torch.equal(filt.Q, T(ctorQl)) and torch.equal(filt.R, T(ctorRl))):
+            ctx.fail(stepcase, f"state: {c['filter']} call {j} changed the filter's constructor Q/R")
+        if not all(torch.equal(getattr(model, "p_" + kx), T(prm[kx])) for kx in uf.FAM_KEYS):
+            ctx.fail(stepcase, f"state: {c['filter']} call {j} changed the system's parameters")
+        if float(model.systime) != clock0:
+            ctx.fail(stepcase, f"state: {c['filter']} call {j} moved the system clock from {clock0} to {float(model.systime)}")
         # ---- tolerance
         if is_ukf and uinfo is not None:
             extra = 1.0 if lin else max(1.0, uinfo["kappaPm"])
             tolx, tolP = tol_pair(uinfo, eps, extra)
         else:
             tolx, tolP = tol_pair(ref, eps)
-        # ---- oracle (b): Kalman posterior / documented linearised recursion
+        tolPs = tmax(tolP)
+        # ---- oracle (b): Kalman posterior / documented recursion
+        oracle = None
         if lin or not is_ukf:
-            dx, dP = uf.maxdiff(x2, ref["x"]), uf.maxdiff(P2, ref["P"])
-            ctx.count("oracle.kf")
-            ctx.hist["oracle.kf.maxratio"] = max(ctx.hist.get("oracle.kf.maxratio", 0.0), dx / tolx, dP / tolP)
-            if not (dx <= tolx and dP <= tolP):
-                what = "kf-equality" if lin else "ekf-linearised"
-                ctx.fail(stepcase, f"{what}: {c['filter']} call {j}: |x-x_ref|={dx:.3e} (tol {tolx:.3e}) "
-                                   f"|P-P_ref|={dP:.3e} (tol {tolP:.3e}) n,m,p={n},{m},{p} k={kspec} dtype={c['dtype']}")
+            oracle, what = ref, ("kf-equality" if lin else "ekf-linearised")
+        elif uinfo is not None:
+            try:
+                oracle, what = uf.mp_ukf_documented(fam, kval, ul, yl, Ql, Rl, xl, Pl), "ukf-documented"
+            except (ValueError, ZeroDivisionError):
+                oracle = None
+        if oracle is not None:
+            rx, rP = uf.ratio(x2, oracle["x"], tolx), uf.ratio(P2, oracle["P"], tolP)
+            ctx.count("oracle." + what)
+            ctx.hist["oracle.maxratio"] = max(ctx.hist.get("oracle.maxratio", 0.0), rx, rP)
+            if not (rx <= 1 and rP <= 1):
+                dx, dP = uf.maxdiff(x2, oracle["x"]), uf.maxdiff(P2, oracle["P"])
+                ctx.fail(stepcase, f"{what}: {c['filter']} call {j}: |x-x_ref|={dx:.3e} ({rx:.2e} x tol) "
+                                   f"|P-P_ref|={dP:.3e} ({rP:.2e} x tol) n,m,p={n},{m},{p} k={kspec} dtype={c['dtype']} "
+                                   f"args={mode}")
         # ---- oracle (c): covariance validity
         if centre_ok:
             carry = ref["gain2"] * (in_asym + max(0.0, -in_lam)) if j > 0 else 0.0
-            asym, lam, ok = psd_check(P2, tolP, carry)
+            asym, lam, ok = psd_check(P2, tolPs, carry)
             ctx.count("oracle.psd")
             if not ok:
                 ctx.fail(stepcase, f"psd: {c['filter']} call {j}: covariance asymmetry {asym:.3e}, min eigenvalue {lam:.3e} "
-                                   f"(tol {tolP:.3e})")
-        if x2.shape != x.shape or P2.shape != P.shape or x2.dtype != dt:
-            ctx.fail(stepcase, f"shape: {c['filter']} returned {tuple(x2.shape)} {tuple(P2.shape)} {x2.dtype}")
-            break
+                                   f"(tol {tolPs:.3e})")
         # ---- model line (a)
         if is_ukf:
-            lines.append(ukf_line(c, d, kval, t_eff, st["u"], yl, Ql, Rl, xl, Pl))
+            lines.append(ukf_line(c, prm, kval, t_eff, ul, yl, Ql, Rl, xl, Pl))
         else:
-            lines.append(f"c13.ekf {n} {m} {p} " + uf.step_tokens(d["prm"], t_eff, st["u"], yl, Ql, Rl, xl, Pl))
+            lines.append(f"c13.ekf {n} {m} {p} " + uf.step_tokens(prm, t_eff, ul, yl, Ql, Rl, xl, Pl))
         # a prior / predicted covariance that is singular at rounding level: the exact model may find no Cholesky
         # factor where the float code (or a user-supplied symmetric root) still returns one — not a verdict
         soft_pd = is_ukf and ((j > 0 and in_lam <= 4 * n * prev_tolP) or uinfo is None
@@ -354,16 +516,15 @@ def run_one(ctx: Ctx, c, lines, metas, verbose=False):
             print(f"  call {j}: implementation x={x2.tolist()}\n           reference      x={uf.mp_to_list(ref['x'])}")
         if j == 0:
             ctx.sample({k2: v for k2, v in c.items()}, cap=8)
-        x, P = x2.detach(), P2.detach()
-        prev_tolP = tolP
-        if not (bool(torch.isfinite(x).all()) and bool(torch.isfinite(P).all())):
-            break
+        xl, Pl = x2.detach().double().tolist(), P2.detach().double().tolist()
+        in_asym, in_lam = sym_defect(P2.detach())
+        prev_tolP = tolPs
     for mu in mon.mutations:
         ctx.fail(dict(c), f"mutation: {mu['function']} changed its argument {mu['argument']}")
 
 
-def ukf_line(c, d, kval, t_eff, u, y, Q, R, x, P):
-    return f"c13.ukf {c['n']} {c['m']} {c['p']} {to_wire(float(kval))} " + uf.step_tokens(d["prm"], t_eff, u, y, Q, R, x, P)
+def ukf_line(c, prm, kval, t_eff, u, y, Q, R, x, P):
+    return f"c13.ukf {c['n']} {c['m']} {c['p']} {to_wire(float(kval))} " + uf.step_tokens(prm, t_eff, u, y, Q, R, x, P)
 
 
 def compare_runs(ctx: Ctx, lines, metas, verbose=False, reps=None):
@@ -385,14 +546,15 @@ def compare_runs(ctx: Ctx, lines, metas, verbose=False, reps=None):
             ctx.disagree("run", case, f"model fails ({toks}) but the implementation returned a value")
             continue
         vals = [common.from_wire(t) for t in toks]
-        dx = uf.maxdiff(me["x"], vals[:n])
-        dP = uf.maxdiff(me["P"], vals[n:])
-        ctx.hist["model.maxratio"] = max(ctx.hist.get("model.maxratio", 0.0), dx / me["tolx"], dP / me["tolP"])
+        rx = uf.ratio(me["x"], vals[:n], me["tolx"])
+        rP = uf.ratio(me["P"], vals[n:], me["tolP"])
+        ctx.hist["model.maxratio"] = max(ctx.hist.get("model.maxratio", 0.0), rx, rP)
         if verbose:
             print(f"  call {case['step']}: model x={[float(v) for v in vals[:n]]}")
-        if not (dx <= me["tolx"] and dP <= me["tolP"]):
+        if not (rx <= 1 and rP <= 1):
+            dx, dP = uf.maxdiff(me["x"], vals[:n]), uf.maxdiff(me["P"], vals[n:])
             ctx.disagree("run", case, f"{case['filter']} call {case['step']}: implementation vs model |dx|={dx:.3e} "
-                                      f"(tol {me['tolx']:.3e}) |dP|={dP:.3e} (tol {me['tolP']:.3e}) k={case.get('k_call', case['k'])} "
+                                      f"({rx:.2e} x tol) |dP|={dP:.3e} ({rP:.2e} x tol) k={case.get('k_call', case['k'])} "
                                       f"n,m,p={n},{case['m']},{case['p']} dtype={case['dtype']}")
 
 
